@@ -1,7 +1,7 @@
 (** Proofs about Model/Loop.v, part 5: what the boolean specifications [c03_sb]
     and [c19_sb] mean, as propositions ([c03_sb_meaning], [c19_sb_meaning]). *)
 
-From DivanV Require Import Base.Res Generated.Consts Model.Timestamp Model.Loop Proofs.Loop Proofs.LoopProps.
+From DivanV Require Import Base.Res Generated.Consts Model.Timestamp Model.Loop Proofs.Loop Proofs.LoopProps Proofs.LoopSb.
 From Coq Require Import ZifyN ZifyBool ZifyNat Lia.
 Local Open Scope N_scope.
 Arguments N.add : simpl never.
@@ -184,4 +184,32 @@ Proof.
   rewrite Hd. split.
   - intros H _ _. tauto.
   - intros H. specialize (H eq_refl eq_refl). tauto.
+Qed.
+
+(** * C19 end to end: what the model reports satisfies [c19_e2e_sb] *)
+Theorem c19_e2e_model c init hist out t s :
+  c_test c = false ->
+  bench_loop c init hist = Ok out -> out_done out = true ->
+  seen_of_outcome t out = Ok s ->
+  N.of_nat (length (st_samples (s_store (out_state out)))) < 2 ^ 32 ->
+  c19_e2e_sb c init (firstn (rounds_of (out_state out)) hist) (o_sizes s) (o_stat_samples s) (o_stat_iters s) = true.
+Proof.
+  intros Ht H Hdone Hs Hm.
+  pose proof (c19_model_sb c init hist out t s Ht H Hs Hm) as Hsb.
+  apply c19_sb_meaning in Hsb. unfold c19_holds in Hsb. cbv zeta in Hsb.
+  unfold c19_e2e_sb. cbv zeta.
+  destruct (zero_case c) eqn:Hz; [reflexivity|]. destruct (tuned c) eqn:Htu; [|reflexivity]. cbn [orb negb].
+  destruct (Hsb eq_refl eq_refl) as [Hsz [Hlen [_ [Hfin [_ [_ [Hlt [Hend [Hss Hsi]]]]]]]]].
+  destruct (seen_fields t out s Hs) as [Hd _]. rewrite Hd, Hdone in Hend. cbn [negb] in Hend.
+  set (pre := firstn (rounds_of (out_state out)) hist) in *.
+  rewrite <- Hsz, list_eqb_refl. cbn [andb].
+  assert (Hall : forallb (fun j => continue_after c init pre j) (seq 0 (length pre)) = true)
+    by (apply forallb_seq; exact Hlt).
+  rewrite Hall, Hend. cbn [andb negb].
+  rewrite Hss, Hlen, N.eqb_refl. cbn [andb].
+  rewrite Hsi. rewrite <- Hlen.
+  assert (Hlast : o_final_size s = last (o_sizes s) 0).
+  { rewrite Hfin, Hsz. unfold sizes_of. destruct (length pre) as [|k']; [reflexivity|].
+    rewrite seq_S, map_app. cbn [map Nat.add]. symmetry. apply last_last. }
+  rewrite Hlast. apply N.eqb_refl.
 Qed.
